@@ -288,7 +288,16 @@ impl DebuggerContext {
                 }),
             );
 
-            match vm.parse(&rule, &input) {
+            let result = vm.parse(&rule, &input);
+
+            // If a new run was requested meanwhile, this parse was aborted: its outcome
+            // is meaningless and nobody may be listening on the channel any more, so a
+            // blocking send here could keep the restarting `run` waiting forever.
+            if is_done.load(Ordering::SeqCst) {
+                return;
+            }
+
+            match result {
                 Ok(_) => sender.send(DebuggerEvent::Eof).expect(CHANNEL_CLOSED_PANIC),
                 Err(error) => sender
                     .send(DebuggerEvent::Error(error.to_string()))
